@@ -52,6 +52,16 @@ class _Built:
     """One recording: oracle array A + the real reader on the files written from A."""
 
     def __init__(self, layout):
+        self.dir = tempfile.mkdtemp(prefix='pvc_c01_')
+        self._mts = None
+        try:
+            self._init(layout)
+        except BaseException:
+            # a constructor of the code under test raised: do not leak the temp dir of the half-built recording
+            self.close()
+            raise
+
+    def _init(self, layout):
         self.layout = layout
         parts, nch, dtype = list(layout['parts']), layout['nch'], layout['dtype']
         assert parts and all(p >= 1 for p in parts) and nch >= 1
@@ -60,8 +70,6 @@ class _Built:
         bnd = np.cumsum([0] + parts)
         # the oracle, literally from the statement: "the single array obtained by concatenating the files in order"
         self.A = np.concatenate([raw[bnd[i]:bnd[i + 1]] for i in range(len(parts))], axis=0)
-        self.dir = tempfile.mkdtemp(prefix='pvc_c01_')
-        self._mts = None
         backend = layout['backend']
         A = raw
         conv = (lambda p: str(p)) if layout.get('path', 'path') == 'str' else (lambda p: Path(p))
